@@ -321,7 +321,10 @@ World0 == [ctr |-> EmptyMap, calls |-> <<>>, done |-> <<>>, lists |-> EmptyMap, 
 (* with the same definition, the same arguments and the same outputs.      *)
 (***************************************************************************)
 \* (for a gate the cached value is the chosen TARGET, so its targets belong to the identity as well)
-CacheKey(nd, args) == <<nd.fid, nd.outputs, nd.targets, <<nd.fallback>>, CallArgs(args)>>
+\* ... and the KIND of node: an interrupt and a function node wrapping the same function read its result differently
+\* (None pauses the interrupt, it is an ordinary value of the function node)
+KindClass(nd) == IF nd.kind = "interrupt" THEN "interrupt" ELSE "plain"
+CacheKey(nd, args) == <<nd.fid, KindClass(nd), nd.outputs, nd.targets, <<nd.fallback>>, CallArgs(args)>>
 CacheFind(cache, key) == {i \in 1..Len(cache) : cache[i].key = key}
 CacheTouch(cache, i) == SelectSeq([j \in 1..Len(cache) |-> IF j = i THEN [cache[j] EXCEPT !.key = <<"~moved">>] ELSE cache[j]],
                                   LAMBDA e : e.key # <<"~moved">>) \o <<cache[i]>>
